@@ -8,7 +8,7 @@
                      (v = 0), the k-th one a write cut short (v = 1), power loss after k operations (v = 2) *)
 From Coq Require Import List NArith Lia.
 From Coq Require Import Permutation ZArith.
-From C19 Require Import Model ProofsMap ProofsIds ProofsAgg ProofsProto ProofsMerge ProofsDir ProofsProxy.
+From C19 Require Import Model ProofsMap ProofsIds ProofsAgg ProofsProto ProofsMerge ProofsDir ProofsProxy ProofsNames.
 Import ListNotations.
 
 (* thm:C19_resume_complete, part 1 — the first run (StartSearch + processRequest on an empty directory):
@@ -157,6 +157,31 @@ Example C19_write_without_truncate_refuted :
   nm_find 2%N bad = Some CLong /\ is_done bad = true /\ q_ids (fetch_dir 0 false per bad) = []
   /\ nm_find 2%N good = Some (CQpr 0) /\ q_ids (fetch_dir 0 false per good) = [(1005, 1)]%N.
 Proof. exact notrunc_refuted. Qed.
+
+(* state carried across a restart, 1: the file name <id>.info gives back exactly the ID, for EVERY ID
+   (byte strings; '/' and '.' inside IDs are excluded by the store itself: path and fracNameFromQPRPath),
+   so found_as (found under ITS id) = found *)
+Theorem C19_request_id_roundtrip : forall id, id_of_name (info_name id) = id.
+Proof. exact id_roundtrip. Qed.
+Print Assumptions C19_request_id_roundtrip.
+
+Example C19_request_id_trimset_refuted :
+  id_of_name_trimset (info_name w_uuid_f) <> w_uuid_f /\ id_of_name (info_name w_uuid_f) = w_uuid_f.
+Proof. exact (proj2 trimset_refuted). Qed.
+
+(* state carried across a restart, 2: the query is persisted as text and parsed again by the resumed
+   run with the store's mapping; hypothesis: the mapping at resume time is the one of the first parse.
+   Then every partial result written after the restart is the one the original run would have written. *)
+Theorem C19_resumed_same_ast : forall (text mapping ast : Type) (parse : text -> mapping -> ast)
+  (search : ast -> N -> qpr) q m m' f,
+  m' = m -> resumed_result parse search q m' f = started_result parse search q m f.
+Proof. exact resumed_same_result. Qed.
+Print Assumptions C19_resumed_same_ast.
+
+Example C19_resume_without_mapping_refuted :
+  q_ids (started_result toy_parse toy_search [1; 2]%N true 0%N) = [(7, 7)]%N
+  /\ q_ids (resumed_result toy_parse toy_search [1; 2]%N false 0%N) = [].
+Proof. exact nomapping_refuted. Qed.
 
 (* proxy level (proxy/search/async.go FetchAsyncSearchResult): the proxy reports Done exactly when
    every shard that knows the request is done (shards none of whose replicas knows it are left out) *)
